@@ -19,7 +19,7 @@
            indentation,
       (e7) verbatim: the [\verb] macro ([\verb|text|]) and the verbatim environments
            ([\begin{verbatim} text \end{verbatim}], [lstlisting] with its optional
-           argument).
+           argument), and the verbatim argument kind of custom signatures.
     Same conventions as the core grammar: whitespace is a FIELD of the item it
     precedes, [tree_of2] is in accumulator form (the collector's state after
     the items so far).
@@ -51,9 +51,10 @@ Inductive item2 :=
 | Vrb2 (ws name post : str) (dc : N) (text : str)       (* ws \name post dc text dc   (the [\verb] macro) *)
 | VEnv2 (ws bws name : str) (oarg : list item2) (text : str)
                                   (* ws \begin bws {name} [oarg] text \end{name}   (verbatim environments) *)
-(* the next two only in ARGUMENT position *)
+(* the next three only in ARGUMENT position *)
 | Brk2 (ws : str) (oc cc : N) (body : list item2) (tr : str)   (* ws [ body tr ]   (delimited argument) *)
-| Abs2.                                                 (* an optional argument that is not written *)
+| Abs2                                                  (* an optional argument that is not written *)
+| Vba2 (ws : str) (od cd : N) (text : str).             (* ws od text cd   (verbatim argument) *)
 
 Record doc2 := { d_items2 : list item2; d_trail2 : str }.
 
@@ -78,6 +79,7 @@ Fixpoint unparse_item2 (i : item2) : str :=
       ws ++ begin_str bws name ++ flat_map unparse_item2 oarg ++ text ++ end_str [] name
   | Brk2 ws oc cc b tr => ws ++ oc :: flat_map unparse_item2 b ++ tr ++ [cc]
   | Abs2 => []
+  | Vba2 ws od cd text => ws ++ od :: text ++ [cd]
   end.
 Definition unparse_items2 (l : list item2) : str := flat_map unparse_item2 l.
 Definition unparse2 (d : doc2) : str := unparse_items2 (d_items2 d) ++ d_trail2 d.
@@ -86,7 +88,8 @@ Definition ilen2 (i : item2) : nat := length (unparse_item2 i).
 Definition item_ws2 (i : item2) : str :=
   match i with
   | Text2 ws _ | Grp2 ws _ _ | Mac2 ws _ _ _ | Math2 ws _ _ _ | Cmt2 ws _ _ | Par2 ws _
-  | Env2 ws _ _ _ _ _ _ | Spc2 ws _ _ | Brk2 ws _ _ _ _ | Vrb2 ws _ _ _ _ | VEnv2 ws _ _ _ _ => ws
+  | Env2 ws _ _ _ _ _ _ | Spc2 ws _ _ | Brk2 ws _ _ _ _ | Vrb2 ws _ _ _ _ | VEnv2 ws _ _ _ _
+  | Vba2 ws _ _ _ => ws
   | Abs2 => []
   end.
 
@@ -127,6 +130,31 @@ Definition absent_ok (envs : bool) (oc : N) (fol : str) : bool :=
   match snd (span is_space fol) with
   | [] => true
   | c0 :: r => negb (N.eqb c0 oc) && (negb (N.eqb c0 92) || esc_ok envs r)
+  end.
+
+(** the delimiters of a verbatim argument that starts with [c0]: those of the
+    signature, or — when it declares none — [c0] and its mirror image *)
+Definition vdelims (d : option (str * str)) (c0 : N) : option (N * N) :=
+  match d with
+  | None => Some (c0, if N.eqb c0 123 then 125%N else if N.eqb c0 91 then 93%N
+                      else if N.eqb c0 60 then 62%N else if N.eqb c0 40 then 41%N else c0)
+  | Some ([o], [c]) => if N.eqb c0 o then Some (o, c) else None
+  | Some _ => None
+  end.
+
+(** the parser's scan for the closing delimiter of a verbatim argument (nested
+    opening delimiters are counted): the number of characters before it *)
+Fixpoint verb_scan (od cd : N) (l : str) (depth n : nat) : option nat :=
+  match l with
+  | [] => None
+  | c :: r =>
+      if N.eqb c cd then
+        match depth with
+        | S (S d') => verb_scan od cd r (S d') (S n)
+        | _ => Some n
+        end
+      else if N.eqb c od then verb_scan od cd r (S depth) (S n)
+      else verb_scan od cd r depth (S n)
   end.
 
 (** the number of optional arguments that are not written *)
@@ -186,6 +214,17 @@ Fixpoint ok_item2 (cx : context) (ps : pstate) (ex : str) (i : item2) (fol : str
               N.eqb c ch && inert cx c && (sp || is_nil ws) && ws_ok ws
           | AKChars [ch] _ _, Abs2 =>
               plain_start ch && absent_ok (f_en_envs (ps_f aps)) ch fa
+          | AKVerb d, Vba2 ws od cd text =>
+              (* a verbatim argument: its closing delimiter is the one the parser's scan finds *)
+              ws_ok ws && negb (is_space od) && negb (N.eqb od 92)
+              && match vdelims d od with
+                 | Some (o, c) => N.eqb o od && N.eqb c cd
+                 | None => false
+                 end
+              && match verb_scan od cd (text ++ cd :: fa) 1 0 with
+                 | Some k => Nat.eqb k (length text)
+                 | None => false
+                 end
           | _, _ => false
           end
           && oka r specs' fh
@@ -310,7 +349,7 @@ Fixpoint ok_item2 (cx : context) (ps : pstate) (ex : str) (i : item2) (fol : str
              end
          | None => false
          end
-  | Brk2 _ _ _ _ _ | Abs2 => false        (* only as arguments *)
+  | Brk2 _ _ _ _ _ | Abs2 | Vba2 _ _ _ _ => false        (* only as arguments *)
   end.
 
 (** (same shape as the local fixpoints of [ok_item2]) *)
@@ -346,6 +385,16 @@ Definition ok_arg2 (cx : context) (ps : pstate) (spc : argspec) (a : item2) (fa 
       N.eqb c ch && inert cx c && (sp || is_nil ws) && ws_ok ws
   | AKChars [ch] _ _, Abs2 =>
       plain_start ch && absent_ok (f_en_envs (ps_f aps)) ch fa
+  | AKVerb d, Vba2 ws od cd text =>
+      ws_ok ws && negb (is_space od) && negb (N.eqb od 92)
+      && match vdelims d od with
+         | Some (o, c) => N.eqb o od && N.eqb c cd
+         | None => false
+         end
+      && match verb_scan od cd (text ++ cd :: fa) 1 0 with
+         | Some k => Nat.eqb k (length text)
+         | None => false
+         end
   | _, _ => false
   end.
 
@@ -402,6 +451,9 @@ Fixpoint node_of2 (cx : context) (ps : pstate) (p0 : nat) (i : item2) {struct i}
   match i with
   | Text2 _ _ => None
   | Abs2 => None
+  | Vba2 _ od cd text =>
+      Some (NGroup p0 (p0 + 1 + length text + 1) (ps_mode ps) [od] [cd]
+                   (Some (mk_nodelist None None [Some (mk_chars ps (S p0) (S p0 + length text) text)])))
   | Brk2 _ oc cc b tr =>
       let r := body ps (S p0) cs_empty b in
       Some (NGroup p0 (snd r + length tr + 1) (ps_mode ps) [oc] [cc]
@@ -561,6 +613,7 @@ Fixpoint wsv2 (i i' : item2) {struct i} : Prop :=
   | VEnv2 ws _ nm oa tx, VEnv2 ws' _ nm' oa' tx' => wse ws ws' /\ nm = nm' /\ tx = tx' /\ all2 oa oa'
   | Brk2 ws oc cc b tr, Brk2 ws' oc' cc' b' tr' => wse ws ws' /\ oc = oc' /\ cc = cc' /\ wse tr tr' /\ all2 b b'
   | Abs2, Abs2 => True
+  | Vba2 ws od cd tx, Vba2 ws' od' cd' tx' => wse ws ws' /\ od = od' /\ cd = cd' /\ tx = tx'
   | _, _ => False
   end.
 Definition wsv_items2 : list item2 -> list item2 -> Prop :=
